@@ -400,8 +400,8 @@ def run(ctx):
         if quick:
             batches.append(("fresh", gen_jobs(ctx.seed, 8, 4, ["pebble", "pebble", "mem", "rocksdb"], known)))
         else:
-            batches.append(("fresh", gen_jobs(ctx.seed, 160, 9, engines, known)))
-            batches.append(("systematic", gen_systematic(ctx.seed, engines, known, [1, 2, 3, 5, 8, 13, 21, 34, 55, 69])))
+            batches.append(("fresh", gen_jobs(ctx.seed, 320, 9, engines, known)))
+            batches.append(("systematic", gen_systematic(ctx.seed, engines, known, [1, 2, 3, 4, 5, 8, 13, 21, 34, 47, 55, 69])))
 
     all_fail, all_mism, stats_all, hist_all, samples = [], [], {}, {}, []
     lives_total = events_total = cmp_total = 0
